@@ -128,6 +128,11 @@ func (s *scanner) coalesce(result, partial *pb.Result) (*pb.Result, bool) {
 		// results is not partial, shouldn't coalesce
 		return result, false
 	}
+	if len(result.Cell) == 0 {
+		// a partial result without cells has no row to compare with,
+		// continue with what follows it
+		return partial, true
+	}
 
 	if len(partial.Cell) > 0 && !bytes.Equal(result.Cell[0].Row, partial.Cell[0].Row) {
 		// new row
